@@ -36,6 +36,10 @@ class FGen:
         self.neq = neq
         self.max_ops = max_ops
         self.cnt = itertools.count()
+        # open finding: <builtin>elementwise_abs of an ARRAY returns a 1-based array in Fortran (pinned by
+        # the repository's own test_elementwise_abs); such results are subscripted only in a rare class
+        self.allow_onebased_subscript = rng.random() < 0.05
+        self.onebased = set()
         self.funcs = {
             "<func>rhs": {"kind": "ut", "type": VT, "args": ["t", "y"], "coef": [0.5, 1.0, -2.0], "nres": 1},
             "<func>sf": {"kind": "scalar", "args": ["a0", "a1"], "coef": [1.0, 0.5, 2.0], "nres": 1},
@@ -86,7 +90,7 @@ class FGen:
             return ["if", self.bool_expr(sc, d - 1), self.num_expr(sc, d - 1), self.num_expr(sc, d - 1)]
         if r < 0.9 and sc["arrs"]:
             a = rng.choice(sorted(sc["arrs"]))
-            if rng.random() < 0.5:
+            if rng.random() < 0.5 and (a not in self.onebased or self.allow_onebased_subscript):
                 return ["sub", ["var", a], self.index_for(sc, sc["arrs"][a])]
             return ["call", rng.choice(["<builtin>norm_2", "<builtin>len"]), [["var", a]], {}]
         if r < 0.95 and sc["uts"]:
@@ -222,11 +226,18 @@ class FGen:
                 a = rng.choice(sorted(sc["arrs"]))
                 rhs = self.arr_expr(sc, 1, sc["arrs"][a])
                 lhs = rng.choice(["a2", "b2"])
-                ops.append(["assign", lhs, None, rhs, [], self.s(rhs)])
+                if rhs[0] == "call":
+                    ops.append(["call", [lhs], rhs[1], rhs[2], rhs[3], self.s(*rhs[2])])
+                    self.onebased.add(lhs)
+                else:
+                    ops.append(["assign", lhs, None, rhs, [], self.s(rhs)])
+                    pass      # (not path-sensitive: once one-based, always treated as such)
                 sc["arrs"][lhs] = sc["arrs"][a]
             elif r < 0.76 and sc["arrs"]:
                 # element loop: zero-/one-trip, variable bound, self-dependent update
                 a = rng.choice(sorted(sc["arrs"]))
+                if a in self.onebased and not self.allow_onebased_subscript:
+                    continue
                 n = sc["arrs"][a]
                 lo = rng.randrange(n)
                 hi = rng.choice([lo, lo + 1, n, rng.randint(lo, n)])
@@ -254,7 +265,7 @@ class FGen:
                     expr = ["var", rng.choice(same)]
                 time = rng.choice([["var", "<t>"], ["+", ["var", "<t>"], ["var", "<dt>"]], ["num", 0]])
                 ops.append(["yield", expr, tid, time, rng.choice(["final", "t0"]), self.s(expr)])
-            elif r < 0.95 and depth < 2:
+            elif r < 0.93 and depth < 2:
                 cond = self.bool_expr(sc, rng.choice([0, 1, 2]))
                 sc_then = self.copy_sc(sc)
                 nb = [max(1, min(budget[0], rng.randint(1, 3)))]
@@ -338,7 +349,8 @@ class FGen:
             phases.append({"name": name, "next": rng.choice(names), "body": body})
         return {"phases": phases, "initial": names[0], "state": state, "t0": rng.choice([0.0, 0.5]),
                 "dt0": rng.choice([0.5, 0.25]), "funcs": self.funcs, "run": {"max_steps": rng.randint(1, 5)},
-                "event_cap": 100, "ncalls": rng.randint(1, 5)}
+                "event_cap": 100, "ncalls": rng.randint(1, 5),
+                "subscripts_elementwise_abs_result": bool(self.allow_onebased_subscript and self.onebased)}
 
 # }}}
 
@@ -726,7 +738,7 @@ def execute(script, flags=None, env=None, trace=False, valgrind=False, keep_dir=
         prefix = ()
         if valgrind:
             prefix = ("valgrind", "--error-exitcode=42", "--leak-check=full", "--errors-for-leak-kinds=definite",
-                      "--track-origins=no", "-q")
+                      "--track-origins=no")
             e = {}
         obs.rc, obs.stdout, obs.stderr = fort.run(d, "prog", env=e, timeout=timeout * (8 if valgrind else 1),
                                                   prefix=prefix)
